@@ -37,6 +37,10 @@ pub struct Params {
     /// the bonded denomination (staking parameter, fixed at setup)
     #[serde(default = "default_denom")]
     pub denom: String,
+    /// the staking module is set up twice: first with other parameters (bonded denomination, unbonding time, annual
+    /// rate), which are queried, then with the real ones — the parameters supplied last are the chain's parameters
+    #[serde(default)]
+    pub set_up_twice: bool,
 }
 
 /// The same denomination spelled in the other letter case: another denomination altogether.
@@ -129,6 +133,13 @@ impl Inst {
         let block = app.block_info();
         app.set_block(BlockInfo { height: 1, time: Timestamp::from_seconds(1_000_000), chain_id: block.chain_id });
         let block = app.block_info();
+        if p.set_up_twice {
+            app.init_modules(|router, _api, storage| {
+                router.staking.setup(storage, StakingInfo { bonded_denom: "decoy".into(), unbonding_time: 7, apr: Decimal::from_str("0.9").unwrap() }).unwrap();
+            });
+            // the first parameters are looked at before they are replaced
+            let _: Result<cosmwasm_std::BondedDenomResponse, _> = app.wrap().query(&QueryRequest::Staking(StakingQuery::BondedDenom {}));
+        }
         app.init_modules(|router, api, storage| {
             router
                 .staking
@@ -798,6 +809,19 @@ impl Run {
                 Err(e) => fails.push(("C14".into(), "all-delegations-query-failed".into(), e)),
             }
         }
+        // the bonded denomination shown is the one the module was set up with (last)
+        {
+            let bd: Result<cosmwasm_std::BondedDenomResponse, _> = self.inst.app.wrap().query(&QueryRequest::Staking(StakingQuery::BondedDenom {}));
+            rep.bump("stk/bonded_denom_checked");
+            match bd {
+                Ok(r) if r.denom == m.denom => {}
+                other => {
+                    let detail = format!("{:?}: BondedDenom answers {:?}, the module was set up with {:?}", op, other.map(|r| r.denom).map_err(|e| e.to_string()), m.denom);
+                    fails.push(("C14".into(), "bonded-denom-query-differs-from-the-setup".into(), detail.clone()));
+                    fails.push(("C10".into(), "staking-query-differs-from-committed-state".into(), detail));
+                }
+            }
+        }
         // AllValidators lists exactly the validators of the chain, each answering the single Validator query, too
         {
             let all: Result<cosmwasm_std::AllValidatorsResponse, _> = self.inst.app.wrap().query(&QueryRequest::Staking(StakingQuery::AllValidators {}));
@@ -1033,7 +1057,8 @@ pub fn gen_params(rng: &mut Rng) -> Params {
     let denom = rng.pick(&["TOKEN", "TOKEN", "ustake"]).to_string();
     let max_commissions = (0..n).map(|_| (rng.pick(&["1", "1", "0.2", "0", "0.05"]).to_string(), rng.pick(&["0.01", "0", "1"]).to_string())).collect();
     let naming = *rng.pick(&[0u8, 0, 0, 1, 1, 2]);
-    Params { apr, unbonding, commissions, max_commissions, naming, denom }
+    let set_up_twice = rng.chance(1, 4);
+    Params { apr, unbonding, commissions, max_commissions, naming, denom, set_up_twice }
 }
 
 fn gen_amount(rng: &mut Rng, reference: u128) -> u128 {
@@ -1236,7 +1261,7 @@ pub fn run_case(case: &Case, with_twin: bool, rep: &mut Report) -> Vec<Fail> {
 
 /// Constructive histories: the scenarios of DESIGN.md section 6 (D1, D6, D7) and the basic flows.
 pub fn templates() -> Vec<(String, Case)> {
-    let p = Params { apr: "0.1".into(), unbonding: 60, commissions: vec!["0.1".into(), "0".into()], max_commissions: vec![], naming: 0, denom: DENOM.to_string() };
+    let p = Params { apr: "0.1".into(), unbonding: 60, commissions: vec!["0.1".into(), "0".into()], max_commissions: vec![], naming: 0, denom: DENOM.to_string(), set_up_twice: false };
     let v0 = "validator0".to_string();
     let v1 = "validator1".to_string();
     let t = DENOM.to_string();
